@@ -28,6 +28,8 @@ mod re_program;
 mod regex;
 #[cfg(regexml_verif)]
 mod verif;
+#[cfg(regexml_verif)]
+pub use crate::verif::take_cutoffs as verif_take_cutoffs;
 
 pub use crate::analyze_string::{AnalyzeEntry, MatchEntry};
 pub use crate::re_compiler::Error;
